@@ -7,6 +7,7 @@ import pandas as pd
 from dags import concatenate_functions
 from jax import vmap
 
+from lcm import _verif
 from lcm.argmax import argmax, segment_argmax
 from lcm.dispatchers import spacemap, vmap_1d
 from lcm.interfaces import InternalModel, Space
@@ -190,9 +191,18 @@ def simulate(
 
         # Update states
         # ==============================================================================
+        _verif_key_in = key
         key, sim_keys = _generate_simulation_keys(
             key=key,
             ids=model.function_info.query("is_stochastic_next").index,
+        )
+        _verif.emit(
+            "sim_keys",
+            period=period,
+            seed=seed,
+            key_in=_verif_key_in,
+            key_out=key,
+            sim_keys=sim_keys,
         )
 
         states = next_state(
